@@ -17,7 +17,7 @@ ASSUMPTIONS = ["models/tc209.py: SET TEMPORARY Tc loads DTR1:DTR0, ACTIVATE copi
                "the library's QueryColourValueDTR enumeration defines the query selectors (73 members)"]
 EXHAUSTIVE = {"quick": False, "thorough": True}
 REQUIRED_ANCHORS = {"all": ["set_checked", "limit_checked", "query_checked", "query_faults_checked", "rejections_checked",
-                            "order_monitored"]}
+                            "order_monitored", "interleaved_pairs"]}
 SHARD_TIMEOUT = {"quick": 600, "thorough": 3000}
 
 
@@ -29,6 +29,7 @@ def plan(tier, seed):
     for p in range(4):
         sh.append({"kind": "query", "part": p, "of": 4, "values": 120 if tier == "quick" else 1200})
     sh.append({"kind": "reject"})
+    sh.append({"kind": "interleaved", "n": 300 if tier == "quick" else 5000})
     return sh
 
 
@@ -162,6 +163,45 @@ def run_set(desc, seed, res):
     res.sample({"sequence": "SetDT8ColourValueTc", "mirek": mireks[len(mireks) // 2], "cases": len(mireks)})
 
 
+def run_interleaved(desc, seed, res):
+    """Two buses in one process: their sequences are separate generator instances advanced in turns.  Each unit must end
+    exactly as if its sequence had run alone."""
+    from dali.gear.sequences import SetDT8ColourValueTc, SetDT8TcLimit, QueryDT8ColourValue
+    from dali.gear.colour import QueryColourValueDTR
+    from models.bus import run_interleaved as step
+    r = rng(seed, "C14", "interleaved")
+    for t in range(desc["n"]):
+        va, vb = r.getrandbits(16), r.getrandbits(16)
+        if t % 3 == 0:
+            vb = (va + 0x0100 * r.randint(1, 200)) % 65536        # differ in the high byte
+        ka, kb = r.choice(["set", "set", "limit", "query"]), r.choice(["set", "limit", "set", "query"])
+        busA, ta, oa, da = mk_bus("short", values={2: va})
+        busB, tb, ob, db = mk_bus("short", values={2: vb})
+        ta.tc.actual_tc, tb.tc.actual_tc = (va if ka == "query" else 0xFFFF), (vb if kb == "query" else 0xFFFF)
+
+        def mk(kind, dest, v):
+            if kind == "set":
+                return SetDT8ColourValueTc(dest, v)
+            if kind == "limit":
+                return SetDT8TcLimit(dest, 0, v)
+            return QueryDT8ColourValue(dest, QueryColourValueDTR.ColourTemperatureTC)
+        res.evaluations += 1
+        res.distinct += 1
+        res.hit("interleaved_pairs")
+        wit = {"sequences": [ka, kb], "values": [va, vb]}
+        outs = step([(busA, mk(ka, da, va)), (busB, mk(kb, db, vb))], r if t % 2 else None)
+        for name, kind, unit, v, o in (("first", ka, ta, va, outs[0]), ("second", kb, tb, vb, outs[1])):
+            if o[0] == "exc":
+                res.violation(f"C14/interleaved/raised/{type(o[1]).__name__}", f"{kind} sequence on the {name} bus raised {type(o[1]).__name__}", wit)
+            elif kind == "set" and unit.tc.actual_tc != v:
+                res.violation("C14/interleaved/unit-value", f"two sequences advanced in turns on two buses: the {name} unit ends with Tc "
+                              f"{unit.tc.actual_tc}, requested {v}", wit)
+            elif kind == "limit" and unit.tc.limits[0] != v:
+                res.violation("C14/interleaved/limit-value", f"two sequences advanced in turns: the {name} unit's limit is {unit.tc.limits[0]}, requested {v}", wit)
+            elif kind == "query" and o[1] != (None if v // 256 == 255 else v):
+                res.violation("C14/interleaved/query-value", f"two sequences advanced in turns: the {name} query returned {o[1]!r}, unit holds {v}", wit)
+
+
 def run_query(desc, seed, res):
     from dali.gear.sequences import QueryDT8ColourValue
     from dali.gear.colour import QueryColourValueDTR
@@ -193,6 +233,8 @@ def run_query(desc, seed, res):
                 elif int(sel) in (128, 129, 130, 131):
                     target.tc.limits[{128: 0, 130: 1, 129: 2, 131: 3}[int(sel)]] = v
                 target.dtr0 = r.getrandbits(8)
+                # whatever the lamp is doing: the arc power level (incl. MASK while preheating / failed) is not the colour value
+                target.actual_level = (254, 0, 255, 1, 128, 255)[vi % 6]
                 res.evaluations += 1
                 res.distinct += 1
                 res.hit("query_checked")
@@ -284,6 +326,8 @@ def run_shard(desc, tier, seed):
         run_set(desc, seed, res)
     elif k == "query":
         run_query(desc, seed, res)
+    elif k == "interleaved":
+        run_interleaved(desc, seed, res)
     else:
         run_reject(res)
     return res
